@@ -17,31 +17,50 @@ pub struct FrameSource {
     pub term_at: usize,
     pub sent: usize,
     pub reads: usize,
+    pub max_reads: usize,
     pub max_space_seen: usize,
 }
 
-impl ReadHalf for FrameSource {
-    async fn read(&mut self, buf: &mut [u8]) -> zlink_core::Result<usize> {
-        self.reads += 1;
-        if buf.len() > self.max_space_seen {
-            self.max_space_seen = buf.len();
+pub struct FrameFut<'a, 'b> {
+    s: &'a mut FrameSource,
+    buf: &'b mut [u8],
+}
+
+impl core::future::Future for FrameFut<'_, '_> {
+    type Output = zlink_core::Result<usize>;
+    fn poll(self: core::pin::Pin<&mut Self>, _cx: &mut core::task::Context<'_>) -> Poll<Self::Output> {
+        let this = self.get_mut();
+        let (s, buf) = (&mut *this.s, &mut *this.buf);
+        s.reads += 1;
+        if s.reads > s.max_reads {
+            // bound of the harness: see `sock::READ_POLL_LIMIT`
+            crate::nd::cut_path();
         }
-        if self.term_at != 0 && self.sent >= self.term_at {
-            return Ok(0); // frame fully sent, peer closed
+        if buf.len() > s.max_space_seen {
+            s.max_space_seen = buf.len();
+        }
+        if s.term_at != 0 && s.sent >= s.term_at {
+            return Poll::Ready(Ok(0)); // frame fully sent, peer closed
         }
         let mut put = 0;
         let mut i = 0;
-        while i < 16 {
-            let more = self.term_at == 0 || self.sent < self.term_at;
-            if i < self.chunk && i < buf.len() && more {
-                let last = self.term_at != 0 && self.sent + 1 == self.term_at;
+        while i < 8 {
+            let more = s.term_at == 0 || s.sent < s.term_at;
+            if i < s.chunk && i < buf.len() && more {
+                let last = s.term_at != 0 && s.sent + 1 == s.term_at;
                 buf[i] = if last { 0 } else { 0x41 };
-                self.sent += 1;
+                s.sent += 1;
                 put += 1;
             }
             i += 1;
         }
-        Ok(put)
+        Poll::Ready(Ok(put))
+    }
+}
+
+impl ReadHalf for FrameSource {
+    fn read<'s, 'b>(&'s mut self, buf: &'b mut [u8]) -> impl core::future::Future<Output = zlink_core::Result<usize>> + use<'s, 'b> {
+        FrameFut { s: self, buf }
     }
 }
 
@@ -55,6 +74,7 @@ pub fn limit_in<const CH: usize>(nd: &mut Nd) {
         term_at: p,
         sent: 0,
         reads: 0,
+        max_reads: 2 * ((MAX + CH - 1) / CH) + 2,
         max_space_seen: 0,
     };
     let mut conn = ReadConnection::verif_from_parts(src, vec![0x55u8; STEP], 0, 0, 5);
